@@ -74,6 +74,7 @@ from pedal.core.report import MAIN_REPORT
 from pedal.core.final_feedback import FinalFeedback, set_correct_no_errors
 from pedal.core.feedback import Feedback, DEFAULT_CATEGORY_PRIORITY
 from pedal.resolvers.core import make_resolver
+from pedal.utilities import verif_hooks
 
 
 def by_priority(feedback):
@@ -146,5 +147,7 @@ def resolve(report=MAIN_REPORT, priority_key=by_priority):
     final.finalize()
     report.result = final
     report.resolves.append(final)
+    if verif_hooks.ENABLED:
+        verif_hooks.emit("resolve", report=report, final=final)
     return final
 
